@@ -34,6 +34,13 @@ def consts(tier: str, part: str):
         base.update({"Topos": g.tla_set(["face2", "edge2"]), "RotChoice": "{1, 4, 7, 11, 30, 43}",
                      "ChopOpts": g.tla_set(["A2", "D1E2"]), "MaxChopped": "0", "Cover": "TRUE", "AllOrders": "TRUE"})
         return base
+    if part == "swap4":
+        # a row of four whose inner blocks are numbered with their first two axes swapped relative to each other (first axis of
+        # the one along the second family, first axis of the other along the third): every axis of a block is to be tried in
+        # every pass, whatever the other axes are waiting for
+        base.update({"Topos": g.tla_set(["row4"]), "RotChoice": "{33, 42}",
+                     "ChopOpts": g.tla_set(["A2"]), "MaxChopped": "0", "Cover": "TRUE", "AllOrders": "FALSE"})
+        return base
     if tier == "quick":
         if part == "free":
             base.update({"Topos": g.tla_set(["face2", "edge2", "hook3"]), "RotChoice": "{1, 30}",
@@ -86,7 +93,7 @@ def run(ctx: Ctx) -> None:
     rng = random.Random(ctx.seed + 2)
     n_sched = 2 if ctx.tier == "quick" else 8
     limit = 260 if ctx.tier == "quick" else 12000
-    for part in ("free", "cover", "chain", "multi") + (("cover4",) if ctx.tier == "thorough" else ()):
+    for part in ("free", "cover", "chain", "multi", "swap4") + (("cover4",) if ctx.tier == "thorough" else ()):
         c = consts(ctx.tier, part)
         cfgs = g.model_check(ctx, c, INVS, props=["Terminates"] if ctx.tier == "thorough" else [],
                              timeout=3000, emit=True).records
